@@ -40,6 +40,17 @@ package container
 //@ func Queue.poll trusted
 //@   modifies all
 
+// poll's "apply" step: of several records fetched for one container during a
+// poll (locked-by-me list first, queued list second, ...) the one fetched LAST
+// is what the poll reports - a container unlocked between the two requests
+// must not stay "Locked" in the dispatcher's view.
+//@ func Queue.poll$1 property C14 safety -nil
+//@   # (poll makes the map just before it defines this function)
+//@   requires next != nil
+//@   at loop 1 back: assert next[upd.UUID] != nil
+//@   at loop 1 back: assert next[upd.UUID].State == upd.State && next[upd.UUID].Priority == upd.Priority
+//@   at loop 1 back: assert *next[upd.UUID] == upd
+
 //@ func Queue.delEnt property C14
 //@   requires cq.current != nil
 //@   modifies map[string]QueueEnt
